@@ -8,6 +8,7 @@ from props.C01 import frames_needed
 
 class C18(PropBase):
     id = 'C18'
+    rx_only_gaps = 0.1
     partial_passes = 0.25
     rx_only_passes = 0.4
     lean_modules = ['Isotp.Props.C18']
